@@ -7,7 +7,7 @@ import time
 import checklib as cl
 from props import server_common as S
 
-INPUTS = ["くるまで", "しんかこか", "しんかこ", "やまだ", "たかい", "かか", "ためし", "こーひー", "ほん", "きやま", "おやま", "てすと"]
+INPUTS = ["くるまで", "しんかこか", "しんかこ", "やまだ", "たかい", "かか", "ためし", "こーひー", "ほん", "きやま", "おやま", "てすと", "じ", "こ"]
 CTXS = ["normal", "proper", "foreign", "numeral"]
 S_KANA = [chr(c) for c in range(0x3042, 0x3094)] + ["ー"]
 REGS = [("Guess", "かかない", "書かない"), ("Guess", "ためさない", "試さない"), ("Guess", "たべない", "食べない"), ("Guess", "たかい", "高い"),
@@ -52,6 +52,17 @@ def run(run, replay=None):
         try:
             n_entries = 0
             now = 5_000_000
+            if hi == 0:
+                # directed: in numeral context a counter that only the ancillary dictionary has is confirmed as non-first candidate
+                res = r.conv("numeral", "じ")
+                ts_ = S.texts(res) or []
+                if res[0] == "ok" and len(ts_) >= 2:
+                    r.confirm(len(r.sids) - 1, str(len(ts_) - 1), now + 1)
+                    r.confirm(len(r.sids) - 1, "0", now + 2)            # consumed: no effect
+                    res = r.conv("numeral", "じ")
+                    r.confirm(len(r.sids) - 1, str((S.texts(res) or [""]).index(ts_[-1]) if ts_[-1] in (S.texts(res) or []) else 0), now + 3)
+                    trace.append(["confirm", "numeral", "じ", ts_[-1], now + 3])
+                    stats["confirmations"] += 2
             for step in range(20 if thorough else 10):
                 if rng.chance(1, 2):
                     reg = rng.pick(REGS)
